@@ -88,6 +88,7 @@ def forms_for(prog):
             ("pos_k0", lambda va, vb: ((va, vb), {"k": 0})),      # keyword-only default spelled out
             ("rest", lambda va, vb: ((va, vb, vb), {})),          # a different call: surplus positional
             ("kw_a", lambda va, vb: ((va, vb), {"a": va})),       # a different call: 'a' lands in **kw
+            ("rest_k0", lambda va, vb: ((va, vb, vb), {"k": 0})),  # same binding as "rest"
         ]
     raise KeyError(prog)
 
